@@ -221,7 +221,7 @@ func (a *Actor) before(verb, kind string, isWrite bool) (int, FaultKind, error) 
 	seq := c.seq
 	dead := a.dead
 	var f FaultKind
-	if !dead {
+	if !dead && a.name != "cmd" { // faults are injected into the controllers' calls, not into the user's kubectl
 		if fk, ok := c.Faults[seq]; ok && (isWrite || c.opts.FaultOnReads) {
 			f = fk
 			if !isWrite && f != FaultReject {
@@ -245,7 +245,7 @@ func (a *Actor) before(verb, kind string, isWrite bool) (int, FaultKind, error) 
 	if dead {
 		return seq, FaultNone, errCrashed
 	}
-	if gate != nil {
+	if gate != nil && a.name != "cmd" {
 		gate(a.name, seq, verb, kind)
 	}
 	return seq, f, nil
